@@ -122,7 +122,7 @@ _p("C14", "TCP framing buffer returns exactly the frames that were sent", "explo
    "runtime monitor: push/pull event stream of TcpBuffer checked against a reference de-framer; frames carry unique ids; every chunk composition of short streams, random chunkings of long ones",
    "every frame-size sequence whose encoded stream is <= 12 (quick, sampled above 9) / 14 (thorough) bytes x every composition of the stream into chunks x 4 pull patterns (after every push / only at the end / alternating); random cases with frame sizes {0,1,2,3,255,256,257,65534,65535,random}, up to 40 frames / 2 MB, chunking styles 1-byte drip, 0..3-byte (incl. empty), huge, boundary-sized, and streams ending in an incomplete frame. distinct = distinct (sequence, composition) pairs.",
    "Exhaustive small-scope enumeration of chunkings with an exact oracle (pull returns Some iff a complete frame is buffered, and then exactly the next frame), plus random long streams.",
-   "trusted: 20-line reference de-framer", exhaustive_note="all compositions of every enumerated short stream are covered; long streams are sampled")
+   "trusted: 20-line reference de-framer", layers=["miri"], exhaustive_note="all compositions of every enumerated short stream are covered; long streams are sampled")
 
 _p("C15", "A peer is validated only by a STUN message accepted from it, and stays validated", "exploration",
    "runtime monitor: is_validated_peer for the whole address universe compared with the reference model's set after every call of every agent history",
